@@ -67,6 +67,11 @@ var docValues = []any{
 	map[string]any{}, map[string]any{"a": 1}, map[string]any{"a": "b"}, map[string]any{"a": []any{"b", "c"}}, map[string]any{"a": map[string]any{}},
 	map[string]any{"a": map[string]any{"A": 1, "B": []any{"y"}}}, map[string]any{"a": "1s", "b": 2}, map[string]any{"a": nil}, map[string]any{"": 1}, map[string]any{"a": 256},
 	map[string]any{"Major": 1, "Minor": 2, "Note": "n"}, map[string]any{"Cert": "c", "Verify": true, "Wait": "1s"},
+	// nulls INSIDE lists and maps, mixed with durations spelled as strings and as integers
+	[]any{"3s", nil, 1000}, []any{nil, "1m"}, []any{nil, nil}, []any{1, nil, 3}, []any{"a", nil}, []any{nil, "1.2-x"}, []any{nil, "#fff"}, []any{[]any{"1s", nil}, nil},
+	map[string]any{"a": "1s", "b": nil, "c": 5}, map[string]any{"a": nil, "b": nil}, map[string]any{"a": []any{nil, "2s", 7}}, map[string]any{"a": nil, "b": "x"}, map[string]any{"a": 1, "b": nil},
+	[]any{map[string]any{"Wait": nil, "Waits": []any{nil, "1s", 2}, "Note": "n"}, nil}, map[string]any{"a": map[string]any{"Wait": "1s", "Waits": []any{nil}}, "b": nil},
+	[]any{nil, 1000, "3s"}, []any{1.5, nil}, []any{"x", nil, "3s"},
 }
 
 func drawDoc(t *rapid.T, typeIdx int, format string) []byte {
